@@ -253,8 +253,9 @@ def check_property(mod, world, tier="quick", seed=0):
         rep.bump(EXIT_ENGINE)
 
     failing_prop = [o for o in real if o["tag"] == "property" and o["status"] == "sat"]
-    failing_helper = [o for o in real if o["tag"] == "helper" and o["status"] == "sat"]
-    undecided = [o for o in real if o["status"] == "unknown"]
+    # a helper clause that is refuted *or* left undecided is a stale helper: the property obligations are re-proved without relying on it
+    failing_helper = [o for o in real if o["tag"] == "helper" and o["status"] in ("sat", "unknown")]
+    undecided = [o for o in real if o["status"] == "unknown" and o["tag"] == "property"]
 
     # stale helpers: re-prove with the callee bodies inlined (DESIGN.md §6)
     stale_note = []
@@ -367,6 +368,18 @@ def check_property(mod, world, tier="quick", seed=0):
             sys.stderr.write(traceback.format_exc())
             rep.bump(EXIT_ENGINE)
 
+    # bounded differential checks of the assumed library contracts this property leans on
+    assumption_checks = None
+    if getattr(mod, "ASSUMPTION_CHECKS", None):
+        try:
+            from props import assumptions
+            assumption_checks = assumptions.run(mod.ASSUMPTION_CHECKS)
+            for nm, r in assumption_checks.items():
+                if r["failure"]:
+                    rep.say(f"ENGINE-ERROR property={prop}: assumed contract {nm} is refuted by the real dependency: {r['failure']}")
+                    rep.bump(EXIT_ENGINE)
+        except Exception:  # noqa: BLE001
+            sys.stderr.write(traceback.format_exc())
     discharged = sum(1 for o in real if o["status"] == "unsat")
     level = "proof" if (rep.exit == EXIT_OK and not known_lines and discharged == len(real)) else "other"
     fuc = sorted({u.name for u in units})
@@ -397,6 +410,8 @@ def check_property(mod, world, tier="quick", seed=0):
     }
     if bounded is not None:
         cov["bounded"] = bounded
+    if assumption_checks is not None:
+        cov["assumption_checks"] = assumption_checks
     ev = {"property_id": prop, "tier": tier, "seed": seed, "level": level, "coverage": cov,
           "assumptions": list(getattr(mod, "ASSUMPTIONS", [])), "wall_s": round(time.time() - rep.t0, 2),
           "violations": rep.violations}
